@@ -288,7 +288,13 @@ fn valid_tables(name: &str, seed: u64) -> Option<(usize, bool, Vec<TT>)> {
 fn valid_digest_of(name: &str, seed: u64) -> Result<u64, (String, String)> {
     let (n, st, tables) = valid_tables(name, seed).ok_or(("harness".to_string(), format!("bad section {}", name)))?;
     let pool = alpha::pool(n, seed);
-    let operands: Vec<TT> = pool.iter().take(4).cloned().collect();
+    let mut operands: Vec<TT> = vec![pool[pool.len() - 1].clone(), pool[pool.len() / 2].clone()];
+    if n > 0 {
+        operands.push(TT::from_fn(n, |m| (m >> (n - 1)) & 1 != 0));
+        operands.push(TT::from_fn(n, |m| alpha::popcount(m) % 2 == 1));
+    } else {
+        operands.push(pool[0].clone());
+    }
     let bits: Vec<usize> = if n <= 4 { (0..nbits(n)).collect() } else { vec![0, 1, nbits(n) / 2, nbits(n) - 1] };
     let ops = hist::op_alphabet(n, &operands, &bits, &[1, 5, 6]);
     let others: Vec<TT> = pool.iter().rev().take(3).cloned().collect();
